@@ -1,6 +1,7 @@
 import Pike.Model.Key
 import Pike.Lemmas.LRU
 import Pike.Facts
+import Pike.Model.StoreMap
 /-
 C06 — cache keys isolate method, host and the full request URI.
 -/
@@ -130,6 +131,15 @@ where
   C11_resident_is_reused (d : Disp) (i : Nat) (k : Str) (it : Item) (h : find (d.shards i) k = some it) :
       (lookup d i k).2.1 = it.eid := by
     unfold lookup; rw [h]
+
+/-- The persistent side (the map the `store` suite replays every real badger operation on): what is read for a key of
+a store is what was last written for exactly that key of exactly that store — writing any other (store, key), however
+long a prefix the keys share, does not show. -/
+theorem store_keys_isolated (m : StoreMap.M) (k k' : StoreMap.K) (v : Str) (h : k' ≠ k) :
+    StoreMap.get (StoreMap.set m k v) k' = StoreMap.get m k' ∧ StoreMap.get (StoreMap.set m k v) k = some v :=
+  ⟨StoreMap.get_set_other m k k' v h, StoreMap.get_set_same m k v⟩
+
+example : StoreMap.get (StoreMap.set (StoreMap.set [] (0, 6) "a".toList) (0, 7) "b".toList) (0, 6) = some "a".toList := by decide
 
 end C06
 end Pike
